@@ -165,6 +165,10 @@ theorem owner_record_single_valued (s s' : St) (e : Ev) (h : step s e = some s')
           intro hv; rw [hv] at ho; exact casOutcome_create_ok ho
         · cases h
       · injection h with h; exact same h.symm
+    · split at h
+      · injection h with h; subst h
+        rw [hb] at hb'; injection hb' with hb'; injection hb' with _ e; subst e; exact Or.inl rfl
+      · injection h with h; exact same h.symm
     · injection h with h; exact same h.symm
 
 /-- `releaseBlockAffinity`'s delete (no release in the same write) removes a block only
